@@ -393,6 +393,7 @@ def run(ctx):
 
     # composite transform (and subclasses that inherit it unchanged are covered by MRO)
     composite(ctx, repo, comp)
+    wiring(ctx, repo, comp)
     for sub in repo.subclasses(comp, strict=True):
         over = [n for n in ("forward", "inverse", "fit") if sub.resolve(n) is not comp.resolve(n)]
         if over:
@@ -400,6 +401,89 @@ def run(ctx):
         else:
             ctx.prove("C04.order", sub.ident, f"{sub.module.relpath}:{sub.node.lineno}",
                       "inherits forward/inverse/fit of CompositeTransform unchanged", trivial=True)
+
+
+def wiring(ctx, repo, comp):
+    """C04.wire: CompositeTransform.__init__ builds each bounds-based stage from
+    the bounds of exactly the columns its mask selects."""
+    init = comp.resolve("__init__")
+    construct = init.ident
+    results = {}
+    for choice in ("probit", "logit"):
+        def assume(cnd, choice=choice):
+            if cnd[0] in ("and", "or", "not"):
+                return None
+            sh = T.show(cnd)
+            if cnd == ("is", T.atom("prior_bounds"), T.NONE):
+                return False
+            if "is_torch" in sh or "isinstance" in sh:
+                return None
+            if cnd[0] == "cmp":
+                return choice in sh
+            return True
+        ev = Evaluator(repo, max_depth=1, assume=assume)
+        ret = ev.run(init, comp)
+        ctx.count("functions_folded")
+        if T.strip_raise(ret) == T.RAISE:
+            ctx.unknown("C04.wire", construct, loc_of(init), f"[{choice}] constructor raises on the all-options-on path")
+            return
+        results[choice] = ev
+    ev = results["probit"]
+    params = T.atom("parameters")
+    el = ("f", "elem", (params,), ())
+    PB = ev.heap.get((SELF, "prior_bounds"))
+    PP = ev.heap.get((SELF, "periodic_parameters"))
+    PM = ev.heap.get((SELF, "periodic_mask"))
+    BM = ev.heap.get((SELF, "bounded_mask"))
+    BP = ev.heap.get((SELF, "bounded_parameters"))
+    if None in (PB, PP, PM, BM, BP):
+        ctx.unknown("C04.wire", construct, loc_of(init), "constructor does not set prior_bounds / masks / bounded_parameters")
+        return
+    over = ("t", (params, ("t", ())))
+    want_pm = ("f", "listcomp", (("in", el, PP), over), ())
+    ctx.decide(PM == want_pm, "C04.wire", construct, loc_of(init), "periodic_mask marks exactly the parameters listed as periodic, in parameter order",
+               f"periodic_mask is {T.show(PM)[:200]}", disc="periodic_mask")
+    want_bm = ("f", "listcomp", (("in", el, BP), over), ())
+    ctx.decide(BM == want_bm, "C04.wire", construct, loc_of(init), "bounded_mask marks exactly the bounded parameters, in parameter order",
+               f"bounded_mask is {T.show(BM)[:200]}", disc="bounded_mask")
+    # bounded parameters: finite bounds and not periodic
+    conds = []
+    if BP[0] == "f" and BP[1] == "listcomp" and BP[2][0] == el:
+        gen = BP[2][1]
+        conds = list(gen[1][1][1]) if gen[0] == "t" and gen[1][1][0] == "t" else []
+        conds = [c for cc in conds for c in (cc[1] if cc[0] == "and" else (cc,))]
+    fin = ("f", "all", (("f", "isfinite", (("s", PB, el),), ()),), ())
+    notper = ("not", ("in", el, PP))
+    ctx.decide(fin in conds and notper in conds and len(conds) == 2, "C04.wire", construct, loc_of(init),
+               "bounded parameters == those with finite bounds that are not periodic",
+               f"bounded parameters are selected by {[T.show(c)[:80] for c in conds]} (expected: finite bounds, and not periodic)", disc="bounded_parameters")
+    low = ("f", "listcomp", (("s", ("s", PB, el), T.const(0)), over), ())
+    up = ("f", "listcomp", (("s", ("s", PB, el), T.const(1)), over), ())
+    for choice, evx in results.items():
+        for e in evx.events:
+            if not e.callee.startswith("new:") or e.depth != 0:
+                continue
+            cname = e.callee.rsplit(":", 1)[-1]
+            kw = dict(e.kwargs)
+            if cname == "PeriodicTransform" and choice == "probit":
+                ok = kw.get("lower") == ("s", low, PM) and kw.get("upper") == ("s", up, PM)
+                ctx.decide(ok, "C04.wire", construct, loc_of(init, e.node), "the periodic stage gets (lower, upper) of the columns selected by periodic_mask",
+                           f"the periodic stage is built with lower={T.show(kw.get('lower'))[:120]}, upper={T.show(kw.get('upper'))[:120]}: not the bounds of the columns its mask selects", disc="periodic_stage")
+            if cname in ("ProbitTransform", "LogitTransform"):
+                ok = kw.get("lower") == ("s", low, BM) and kw.get("upper") == ("s", up, BM) and kw.get("eps") in (T.atom("eps"), self_attr("eps"))
+                ctx.decide(ok and cname.lower().startswith(choice), "C04.wire", construct, loc_of(init, e.node),
+                           f"bounded_transform='{choice}' builds {cname} with (lower, upper) of the columns selected by bounded_mask and the instance's eps",
+                           f"bounded_transform='{choice}' builds {cname}(lower={T.show(kw.get('lower'))[:100]}, upper={T.show(kw.get('upper'))[:100]}, eps={T.show(kw.get('eps')) if kw.get('eps') else None})",
+                           disc=f"bounded_stage_{choice}")
+    # update_at_indices (frozen 'update_at' meaning)
+    from ..evalr import TRANSPARENT_REPO_FUNCS
+    uf = repo.func("aspire.utils:update_at_indices")
+    evu = Evaluator(repo, max_depth=0)
+    ru = T.strip_raise(evu.run(uf, None))
+    x, slc, y = (T.atom(p) for p in uf.params[:3])
+    ok = ru == ("f", "setitem", (x, slc, y), ()) or any(s_ and s_[0] == "f" and s_[1] == "method:set" for s_ in T.subterms(ru))
+    ctx.decide(ok, "C04.wire", uf.ident, loc_of(uf), "update_at_indices(x, idx, y) writes y at idx of x and returns it",
+               f"update_at_indices returns {T.show(ru)[:160]}", disc="update_at")
 
 
 def _stores_state(f):
@@ -444,6 +528,15 @@ MUTANTS += [
     M("probit map scaled but Jacobian not", _T, "y = erfinv(2 * y - 1) * math.sqrt(2)", "y = erfinv(2 * y - 1) * 2", ("C04.deriv",)),
     M("affine scales by the variance", _T, "y = (x - self._mean) / self._std", "y = (x - self._mean) / self._std**2", ("C04.deriv", "C04.rt")),
     M("jacobian summed over the batch axis", _T, "log_abs_det_jacobian = 0.5 * (math.log(2 * math.pi) + y**2).sum(-1)", "log_abs_det_jacobian = 0.5 * (math.log(2 * math.pi) + y**2).sum(0)", ("C04.deriv", "C04.anti")),
+]
+MUTANTS += [
+    M("periodic stage gets the bounded columns", _T, "lower=lower_bounds[self.periodic_mask],\n                upper=upper_bounds[self.periodic_mask],", "lower=lower_bounds[self.periodic_mask],\n                upper=upper_bounds[self.bounded_mask],", "C04.wire"),
+    M("lower and upper bounds swapped", _T, "[self.prior_bounds[p][0] for p in parameters]", "[self.prior_bounds[p][1] for p in parameters]", "C04.wire"),
+    M("periodic parameters also treated as bounded", _T, "if self.xp.isfinite(self.prior_bounds[p]).all()\n                    and p not in self.periodic_parameters", "if self.xp.isfinite(self.prior_bounds[p]).all()", "C04.wire"),
+    M("bounded stage ignores eps", _T, "xp=self.xp,\n                eps=self.eps,\n                dtype=self.dtype,\n            )\n\n        if self.affine_transform:", "xp=self.xp,\n                dtype=self.dtype,\n            )\n\n        if self.affine_transform:", "C04.wire"),
+    M("probit and logit classes swapped", _T, "if self.bounded_transform == \"probit\":\n                BoundedClass = ProbitTransform", "if self.bounded_transform == \"logit\":\n                BoundedClass = ProbitTransform", "C04.wire",
+      more=[("elif self.bounded_transform == \"logit\":\n                BoundedClass = LogitTransform", "elif self.bounded_transform == \"probit\":\n                BoundedClass = LogitTransform")]),
+    M("mask in a different parameter order", _T, "[p in self.periodic_parameters for p in parameters],", "[p in self.periodic_parameters for p in sorted(parameters)],", "C04.wire"),
 ]
 NEUTRALS = [
     M("affine forward via temporaries", _T, "y = (x - self._mean) / self._std", "centred = x - self._mean\n        y = centred / self._std"),
